@@ -1097,6 +1097,20 @@ pub fn build(spec: &Spec) -> Built {
         l2: 12,
         single,
     };
+    // the same coordinates as the edited strip of Sheet1 (rows 1..7 of column A, columns A..G of row 1), but on Sheet2:
+    // an edit of Sheet1 at these indices must leave references to them alone
+    // (whatever Sheet2 holds there: only the cells denoted matter)
+    let at = |r1: i32, r2: i32, c1: i32, c2: i32, single: bool| Target { sheet: 1, t1: r1, t2: r2, l1: c1, l2: c2, single };
+    for (r, c, form, tgt, text) in [
+        (6, 13, "local-strip-rel", at(3, 3, 1, 1, true), "=A3".to_string()),
+        (7, 13, "local-strip-abs", at(1, 1, 3, 3, true), "=$C$1".to_string()),
+        (8, 13, "local-strip-range", at(2, 5, 1, 1, false), "=SUM(A2:A5)".to_string()),
+        (9, 13, "local-strip-range", at(1, 1, 2, 5, false), "=SUM(B1:E1)".to_string()),
+        (10, 13, "local-strip-mixed", at(4, 4, 1, 1, true), "=$A4+A$4".to_string()),
+    ] {
+        input(&mut m, 1, r, c, &text);
+        observers.push(Observer { sheet: 1, row: r, col: c, form, target: tgt, via_name: None, text });
+    }
     for (r, c, form, tgt, text) in [
         (1, 13, "local-rel", local(2, 2, true), "=L2".to_string()),
         (2, 13, "local-abs", local(3, 3, true), "=$L$3".to_string()),
@@ -1685,6 +1699,9 @@ pub fn judge_after(model: &Model, b: &Built, pre: &Pre, op: &SOp, case: &Value, 
         // ---- value
         let judgeable = den_ok
             && matches!(e, Expect::Is(_))
+            // the same-coordinate bystanders read other observers of Sheet2, whose values follow the edit: only what
+            // they denote is judged
+            && !o.form.starts_with("local-strip")
             && !(o.target.sheet == 0 && reads_deleted(op, o.target.t1, o.target.t2))
             && o.via_name.as_ref().map(|n| !stale_names.contains(n)).unwrap_or(true)
             && !(o.target.sheet == 0
